@@ -1220,7 +1220,7 @@ func (c *xClient) Inform(ctx context.Context, serviceMethod string, args interfa
 			receipts = append(receipts, Receipt{
 				Address: addr,
 				Reply:   clonedReply,
-				Error:   err,
+				Error:   e,
 			})
 			receiptsLock.Unlock()
 		}()
